@@ -1,5 +1,6 @@
 CONSTANTS
   MaxLen = 5
+  MaxPresents = 3
 INIT Init
 NEXT Next
 INVARIANTS
